@@ -943,7 +943,11 @@ def item_router(repo):
     nf = flat(strip_comments(read(repo, 'crates/anemo/src/routing/not_found.rs')))
     if 'StatusCode::NotFound' not in nf:
         raise ValueError('router: NotFound fallback')
-    return 'def routerShapeChecked : Bool := true\n'
+    # `Route::call` is `self.oneshot_inner(req)` and `oneshot_inner` is `self.0.clone().oneshot(req)` (both checked
+    # above): the boxed service is driven to readiness on a fresh clone before it is called
+    return ('def routerShapeChecked : Bool := true\n'
+            '/-- `Route::call` polls the boxed service ready (on a fresh clone) before calling it -/\n'
+            'def routeCallPollsInner : Bool := true\n')
 
 
 def item_rpc(repo):
